@@ -26,6 +26,10 @@ RULE = ("seq: random single-client histories (5-40 ops) over counter/gauge/histo
         "name from the object the registry maps the name to: number of distinct objects handed out, series, counters, per-goroutine "
         "registration result and handle class (O = series of an object the registry does not know), conservation residue; must be in "
         "(reachable registration outcomes) x (reachable metric observations). "
+        "churn/rchurn: nU goroutines looping UnregisterSeries(A), nC looping WithLabelValues(A)+emit keeping every handle, nE "
+        "looping emit-by-tuple, spin barrier before every iteration, repeated on fresh metrics for a time budget; at quiescence "
+        "every handle ever handed out emits once more and the conservation monitor must report 0 orphans / 0 lost / no overcap / "
+        "no drift (decided by the theorems for all programs and schedules, no exploration). "
         "Non-trivial: seq case with a series, and a tombstone, unregister, or drop; conc case with >= 2 distinct observations.")
 TRUSTED = ["sync/atomic sequentially consistent, sync.Map Load/LoadOrStore/Delete/CompareAndDelete linearizable (each call = one atomic step of the model)",
            "histogram Observe (3 atomic updates + CAS loop) and gauge Add (CAS loop) are modelled as one atomic update at their linearization point",
@@ -125,6 +129,8 @@ SCENARIOS = [
     ("hist-last-slot", "h", 1, 1, "-", ["r:%s/e:0:1" % A, "r:%s/e:0:1" % B, "r:%s/e:0:1" % B]),
     ("hist-double-unregister", "h", 2, 1, "r:%s/r:%s" % (A, B), ["u:%s" % A, "u:%s/r:%s/r:%s" % (A, C, D)]),
     ("hot-handle-emitters", "c", 2, 1, "r:%s" % A, ["e:0:1/e:0:2/e:0:3", "e:0:1/e:0:2/e:0:3", "e:0:5/a:%s:7" % A]),
+    ("two-unregisters-vs-recreate", "c", 2, 1, "r:%s" % A, ["u:%s" % A, "u:%s" % A, "r:%s/e:1:1" % A]),
+    ("hist-two-unregisters-vs-recreate", "h", 2, 1, "r:%s" % A, ["u:%s" % A, "u:%s" % A, "r:%s/e:1:1" % A]),
     ("unbounded-creators", "c", -1, 1, "-", ["r:%s/e:0:1" % A, "r:%s/e:0:1" % B, "r:%s/e:0:1" % A]),
 ]
 
@@ -241,11 +247,22 @@ def gen_cases(rng, tier, budget):
         cases.append(reg_line(cap, rr, 1, pre, ths, race=True))
     for _ in range(1 if quick else 15):
         cases.append(gen_reg_random(rng, rr, race=True))
+    # unregister / re-create / emit loops on ONE tuple, barrier before every iteration; the conservation monitor decides
+    ms = 900 if quick else 4000
+    for kind in "hcg":
+        cases.append("churn %s 2 %d 40 2 2 1 0" % (kind, ms))
+    cases.append("churn h 1 %d 40 2 3 0 0" % ms)
+    cases.append("churn c 2 %d 40 3 2 1 1" % (ms // 2))
+    if not quick:
+        for kind in "hcg":
+            cases.append("churn %s %d %d %d %d %d %d %d" % (kind, rng.choice([1, 2, -1]), ms, rng.choice([10, 40, 200]),
+                                                             rng.randint(2, 4), rng.randint(1, 3), rng.randint(0, 2), rng.randint(0, 1)))
+    cases.append("rchurn h 2 %d 40 2 2 1 0" % ms)
     return cases
 
 
 def route(case):
-    return "telemetry_race" if case.startswith(("rconc", "rreg")) else "telemetry"
+    return "telemetry_race" if case.startswith(("rconc", "rreg", "rchurn")) else "telemetry"
 
 
 # ---------------------------------------------------------------- monitor (same clauses as the OCaml driver)
@@ -307,6 +324,8 @@ def rejected(model_line):
 def nontrivial(case, out):
     if out in ("hang", "skipped-after-hang"):
         return False
+    if case.startswith(("churn", "rchurn")):
+        return True
     if case.startswith("seq"):
         toks = out.split()
         return any(t.startswith("h") for t in toks) and any(t in ("t", "1", "panic") for t in toks)
@@ -318,6 +337,11 @@ def classify(case, impl, model):
         return "P", "harness watchdog fired: an emitter, the tick or a subscriber blocked (non-blocking clause)"
     if impl.strip() == "skipped-after-hang":
         return "G", "not run: an earlier case of the batch hung"
+    if case.startswith(("churn", "rchurn")):
+        bad = [x for x in impl.split()[1:] if not x.endswith("=0")]
+        return "P", ("unregister/re-create/emit churn on one tuple: conservation monitor reports %s "
+                     "(orphans = handles that are neither tombstone, in the series map nor stale; lost = emitted minus "
+                     "series + drops + unknown + stale)" % " ".join(bad))
     if case.startswith("seq"):
         it, mt, ops = impl.split(), model.split(), case.split()[5:]
         for i, (a, b) in enumerate(zip(it, mt)):
@@ -338,7 +362,7 @@ def classify(case, impl, model):
 def signature(case, impl, models):
     """Mechanism of the recorded concurrency defects, derived from what the repaired model rejects."""
     if not case.startswith(("conc", "rconc", "reg", "rreg")):
-        return None
+        return None                           # churn cases: never a recorded finding
     bad = rejected(models["repaired"])
     if not bad:
         return None
@@ -366,6 +390,13 @@ def signature(case, impl, models):
 
 def shrink(case):
     t = case.split()
+    if t[0] in ("churn", "rchurn"):
+        for i in (5, 6, 7):                    # fewer unregisterers / creators / emitters
+            if int(t[i]) > (1 if i < 7 else 0):
+                yield " ".join(t[:i] + [str(int(t[i]) - 1)] + t[i + 1:])
+        if t[8] == "1":
+            yield " ".join(t[:8] + ["0"])
+        return
     if t[0] == "seq":
         head, ops = t[:5], t[5:]
         n = len(ops)
@@ -410,7 +441,9 @@ def distribution(cases, impl):
          "conc_cases_with_violating_observation": 0, "conc_violation_classes": {}}
     for c, o in zip(cases, impl):
         t = c.split()
-        d[t[0]] += 1
+        d[t[0]] = d.get(t[0], 0) + 1
+        if t[0] in ("churn", "rchurn"):
+            continue
         if t[0] in ("reg", "rreg"):
             obs = conc_obs(o or "")
             d["conc_distinct_observations"] += len(obs)
